@@ -220,6 +220,14 @@ PROPS = {
                    # a proof signed by EVERY member of a retained set must be accepted (which subsets suffice is C01's)
                    "complete_actions": ["ApproveMessages", "ValidateProof"], "complete_when": "full_proof"},
         "jobs": [
+            # long histories (24 epochs) against retention settings in the tens and at the top of u64
+            {"kind": "graph", "spec": "MC_C08L", "cfg": "MC_C08L_r16", "module": "Gateway", "evkinds": GW_EVENTS,
+             "need": ["ApproveMessages/ok", "ApproveMessages/retention", "ValidateProof/retention", "RotateSigners/ok"], "control": latest_proof_control, "max_len": 60},
+            {"kind": "graph", "spec": "MC_C08L", "cfg": "MC_C08L_r20", "tiers": ["thorough"], "module": "Gateway", "evkinds": GW_EVENTS,
+             "need": ["ApproveMessages/ok", "ApproveMessages/retention"], "control": latest_proof_control, "max_len": 60},
+            {"kind": "graph", "spec": "MC_C08L", "cfg": "MC_C08L_rmax", "module": "Gateway", "evkinds": GW_EVENTS,
+             "need": ["ApproveMessages/ok", "RotateSigners/ok"], "control": latest_proof_control, "max_len": 60},
+        ] + [
             {"kind": "graph", "spec": "MC_C08", "cfg": "MC_C08_r%s" % r, "module": "Gateway", "evkinds": GW_EVENTS,
              "need": ["ApproveMessages/ok", "RotateSigners/ok", "ValidateProof/ok"] + ([] if r in ("9", "max", "max1") else ["ApproveMessages/retention", "RotateSigners/retention"]),
              "control": latest_proof_control}
@@ -319,12 +327,15 @@ PROPS = {
     "C14": {
         "title": "The gas service holds exactly what was paid in minus what its collector paid out",
         "policy": {"guards": ["positive_amount", "negative_amount", "collector_auth", "sufficient_balance", "balance"],
-                   "fields": ["bal"], "invariants": ["NonNegative"], "events": ["gas_paid", "gas_added", "gas_collected", "gas_refunded"], "rets": []},
+                   "fields": ["bal", "collector"], "invariants": ["NonNegative"], "events": ["gas_paid", "gas_added", "gas_collected", "gas_refunded"], "rets": []},
         "jobs": [
             {"kind": "graph", "spec": "MC_C14", "module": "GasService", "evkinds": ["gas_paid", "gas_added", "gas_collected", "gas_refunded"],
              "need": ["PayGas/ok", "PayGas/positive_amount", "PayGas/balance", "AddGas/ok", "CollectFees/ok",
                       "CollectFees/collector_auth", "CollectFees/sufficient_balance", "Refund/ok", "Refund/collector_auth", "Refund/sufficient_balance"],
              "control": other_amount_control, "quick_edges": 25000},
+            # owner and collector are the same address at deployment; ownership then moves on and back
+            {"kind": "graph", "spec": "MC_C14R", "module": "GasService", "evkinds": ["gas_paid", "gas_added", "gas_collected", "gas_refunded", "ownership_transferred"],
+             "need": ["CollectFees/ok", "CollectFees/collector_auth", "Refund/collector_auth", "TransferOwnership/ok"], "control": other_amount_control},
             GAS_TRACE,
         ],
         "level_text": "TLC proves the step rules (exact movement between spender/receiver and the service, per-token conservation, pay-outs only with the collector's authorisation and never beyond the holding, one event with the same token and amount, rejected calls move nothing) on every transition of a finite instance (all interleavings); the transitions are executed against the real gas service with a Stellar asset contract and the natively registered interchain token, comparing every balance of both tokens after every step.",
@@ -395,8 +406,8 @@ PROPS = {
     },
     "C11": {
         "title": "Token ids are deterministic, write-once; deployed tokens stay ITS-mintable",
-        "policy": {"guards": ["already_deployed", "already_registered", "its_can_mint", "metadata"],
-                   "fields": ["reg", "regTok", "tokMeta", "minters", "tokOwner", "tokSelfId", "idcheck", "bal"],
+        "policy": {"guards": ["already_deployed", "already_registered", "its_can_mint", "metadata", "is_minter"],
+                   "fields": ["reg", "regTok", "tokMeta", "minters", "tokOwner", "tokSelfId", "idcheck", "bal", "meta", "owner"],
                    "invariants": ["ServiceCanMint"], "events": ["token_id_claimed"], "rets": ["DeployInterchainToken", "RegisterCanonical"]},
         "jobs": [
             {"kind": "graph", "spec": "MC_C11", "cfg": "MC_C11_small_dev", "design_cfg": "MC_C11_small", "tiers": ["quick"], "module": "ITS", "evkinds": ITS_EVENTS,
@@ -407,6 +418,10 @@ PROPS = {
              "need": ["DeployInterchainToken/ok", "DeployInterchainToken/already_deployed", "DeployInterchainToken/metadata",
                       "RegisterCanonical/ok", "RegisterCanonical/already_registered", "Deliver/ok", "Deliver/already_deployed"],
              "control": sibling_control(["name", "caller", "auth"], "salt"), "quick_edges": 12000, "max_len": 40, "workers": 12},
+            # the service's deployment / minting protocol against the token built from the repository's source
+            {"kind": "graph", "spec": "MC_C11_token", "module": "Token", "evkinds": TOKEN_EVENTS,
+             "need": ["Mint/ok", "RemoveMinter/ok", "AddMinter/ok", "MintFrom/ok", "MintFrom/is_minter"], "control": zero_amount_control,
+             "init_fields": ["meta"]},
             ITS_TRACE,
         ],
         "level_text": "TLC proves write-once registry, roles after every deployment (service + designated minter only, initial supply credited, metadata as requested), 'taken ids refuse' and service-mintability on every transition of a finite instance (every supply x minter combination, boundary metadata, same salt / other deployer, canonical registrations, remote deploy messages that collide or not, an inbound transfer after every deployment); transitions are executed against the real service, which deploys the repository's pinned interchain_token.wasm; the binding derives every catalogue id through the contract, checks determinism, injectivity and chain-name sensitivity, that token_address(id) is the address derived from (service, id) and that the token reports that id.",
@@ -417,7 +432,8 @@ PROPS = {
         "title": "ITS acts only on approved, well-formed hub messages from trusted chains",
         "policy": {"guards": ["approved", "is_receive_from_hub", "hub_chain", "hub_address", "decodes", "origin_trusted",
                               "recipient_decodes", "registered", "already_deployed", "metadata", "minter_decodes", "custody", "receiver_ok"],
-                   "fields": [], "act_fields": {"Execute": ["*"], "Deliver": ["*"]},
+                   # "takes effect exactly once": approving again must not re-open an executed delivery
+                   "fields": [], "act_fields": {"Execute": ["*"], "Deliver": ["*"], "ApproveDelivery": ["appr"]},
                    "events": ["delivery_executed", "transfer_received", "token_executed", "message_executed"], "rets": []},
         "jobs": [
             {"kind": "graph", "spec": "MC_C04", "cfg": "MC_C04_small_dev", "design_cfg": "MC_C04_small", "tiers": ["quick"], "module": "ITS", "evkinds": ITS_EVENTS,
@@ -440,6 +456,9 @@ PROPS = {
              "need": C05_NEED, "control": other_amount_control, "max_len": 40, "workers": 16},
             {"kind": "graph", "spec": "MC_C05", "cfg": "MC_C05_full", "tiers": ["thorough"], "module": "ITS", "evkinds": ITS_EVENTS,
              "need": C05_NEED + ["MinterMint/ok"], "control": other_amount_control, "max_len": 40, "workers": 16, "tlc_timeout": 3600},
+            # the canonical token is an interchain token built from the repository's source (not the pinned wasm)
+            {"kind": "graph", "spec": "MC_C05", "cfg": "MC_C05_itk", "module": "ITS", "evkinds": ITS_EVENTS,
+             "need": C05_NEED, "control": other_amount_control, "max_len": 40, "workers": 16},
             ITS_TRACE,
         ],
         "level_text": "TLC proves custody = locked - released >= 0 with the canonical token's supply conserved, service-deployed supply changing only by outbound burns, inbound mints, the initial supply and minters' own mints, exact debit / gas / announcement on every successful outbound transfer (trusted destination, positive amount), exact credit inbound, and the frame rule, on every transition of a finite instance (all interleavings; every outbound transfer costs gas); the transitions are executed against the real service, gateway, gas service, a Stellar asset contract and the pinned interchain token; the announced payload bytes are decoded by the harness's own codec and compared field by field.",
@@ -454,6 +473,9 @@ PROPS = {
         "jobs": [
             {"kind": "graph", "spec": "MC_C18", "cfg": "MC_C18_small", "tiers": ["quick"], "module": "ITS", "evkinds": ITS_EVENTS,
              "need": C18_NEED, "control": c18_control, "max_len": 40, "workers": 16},
+            # the canonical token is an interchain token built from the repository's source, with 0 decimals
+            {"kind": "graph", "spec": "MC_C18", "cfg": "MC_C18_itk", "module": "ITS", "evkinds": ITS_EVENTS,
+             "need": ["DeployRemoteCanonical/ok", "RegisterCanonical/ok"], "control": c18_control, "max_len": 40, "workers": 16},
             {"kind": "graph", "spec": "MC_C18", "cfg": "MC_C18_full", "tiers": ["thorough"], "module": "ITS", "evkinds": ITS_EVENTS,
              "need": C18_NEED + ["DeployRemoteCanonical/encodable"], "control": c18_control, "max_len": 40, "workers": 16},
             ITS_TRACE,
@@ -469,6 +491,10 @@ PROPS = {
                    "events": ["ownership_transferred", "operatorship_transferred"], "rets": []},
         "jobs": [
             {"kind": "graph", "spec": "MC_C06_gateway", "module": "Gateway", "evkinds": GW_EVENTS,
+             "need": ["TransferOwnership/ok", "TransferOwnership/role_auth", "TransferOperatorship/ok", "TransferOperatorship/role_auth",
+                      "RotateSigners/ok", "RotateSigners/operator_auth"]},
+            # owner and operator are the same address at construction
+            {"kind": "graph", "spec": "MC_C06_gateway", "cfg": "MC_C06_gateway_same", "module": "Gateway", "evkinds": GW_EVENTS,
              "need": ["TransferOwnership/ok", "TransferOwnership/role_auth", "TransferOperatorship/ok", "TransferOperatorship/role_auth",
                       "RotateSigners/ok", "RotateSigners/operator_auth"]},
             {"kind": "graph", "spec": "MC_C06_gas", "module": "GasService", "evkinds": ["gas_collected", "gas_refunded", "ownership_transferred"],
